@@ -336,7 +336,15 @@ class MelodyModel:
         xtypes_: list[str] = []
         for xtype in xtypes:
             if isinstance(xtype, type):
-                xtypes_.append(_xtype.build_xtype(xtype))
+                # A class may be registered for other ``xsi:type``s than
+                # the one derived from its name (e.g. ``Diagram``).
+                registered = [
+                    k
+                    for i in _xtype.XTYPE_HANDLERS.values()
+                    for k, c in i.items()
+                    if c is xtype
+                ]
+                xtypes_.extend(registered or [_xtype.build_xtype(xtype)])
             elif ":" in xtype:
                 xtypes_.append(xtype)
             elif xtype in {"GenericElement", "ModelElement", "ModelObject"}:
